@@ -505,7 +505,7 @@ snarf_rrule(const char *s, size_t z)
 
 		case KEY_COUNT:
 		case KEY_INTER:
-			if (!(tmp = atol(++kv))) {
+			if ((tmp = atol(++kv)) <= 0) {
 				goto bogus;
 			}
 			switch (c->key) {
